@@ -118,7 +118,7 @@ MUTS = [
      'TCSVD::StorageWrite { key: _, value: inner } => {\n                let key = value;\n                let value = inner;\n                // An equality for the key\'s type\n                let key_tv = state.var_unchecked(key);',
      'C14.rule.storage_write.equalities_as_documented'),
     ('M36 InferenceRules::infer: a rule\'s error is ignored', R + 'mod.rs',
-     'rule.infer(value, state)?;', 'let _ = rule.infer(value, state);', 'C15.rule.run_all.ok_iff_every_rule_ran_and_none_failed'),
+     'rule.infer(value, state)?;', 'let _ = rule.infer(value, state);', 'C15.rule.run_all.'),
     ('M37 InferenceRules::infer: stops after the first rule', R + 'mod.rs',
      'rule.infer(value, state)?;\n        }', 'rule.infer(value, state)?;\n            break;\n        }', 'C15.rule.run_all.'),
     ('M38 TE::address(): built from the Function usage (192 bits)', 'src/tc/expression.rs',
@@ -134,9 +134,13 @@ MUTS = [
      'TCSVD::Add { left, right }\n            | TCSVD::Multiply { left, right }\n            | TCSVD::Subtract { left, right } => {\n                state.infer_for_many([value, left, right], TE::numeric(None));\n            }',
      'TCSVD::Add { left, right } => {\n                state.infer_for_many([left, right, value], TE::numeric(None));\n            }\n            TCSVD::Multiply { left: l, right: r } | TCSVD::Subtract { left: l, right: r } => {\n                state.infer_for(r, TE::numeric(None));\n                state.infer_for(value, TE::numeric(None));\n                state.infer_for(l, TE::numeric(None));\n            }',
      None),
-    ('H02 SIGNEXTEND: width computed with match / Option::filter-free early binding, statements reordered', R + 'arithmetic_operations.rs',
-     'state.infer_for(extend_val, TE::signed_word(None));\n                state.infer_for(size, TE::unsigned_word(None));',
-     'state.infer_for(size, TE::unsigned_word(None));\n                state.infer_for(extend_val, TE::word(None, crate::tc::expression::WordUse::SignedNumeric));',
+    ('H02 SIGNEXTEND: operand judgements reordered, signed word built with TE::word, width through a match', R + 'arithmetic_operations.rs',
+     ['tc::{expression::TE, rule::InferenceRule, state::TypeCheckerState},',
+      'state.infer_for(extend_val, TE::signed_word(None));\n                state.infer_for(size, TE::unsigned_word(None));',
+      'if width <= WORD_SIZE_BITS {\n                        Some(width)\n                    } else {\n                        None\n                    }'],
+     ['tc::{expression::{WordUse, TE}, rule::InferenceRule, state::TypeCheckerState},',
+      'state.infer_for(size, TE::unsigned_word(None));\n                state.infer_for(extend_val, TE::word(None, WordUse::SignedNumeric));',
+      'match width <= WORD_SIZE_BITS {\n                        true => Some(width),\n                        false => None,\n                    }'],
      None),
     ('H03 create: shared judgements hoisted, salt judgement first', R + 'create.rs',
      'state.infer_for(value, TE::address());\n                state.infer_for(create_val, TE::unsigned_word(None));\n                state.infer_for(salt, TE::bytes(Some(WORD_SIZE_BITS)));',
@@ -157,12 +161,22 @@ MUTS = [
      '                // e = unsigned\n                state.infer_for(e, TE::unsigned_word(None));\n\n                // f = unsigned\n                state.infer_for(f, TE::unsigned_word(None));',
      '                state.infer_for_many([f, e], TE::unsigned_word(None));',
      None),
-    ('H08 call_data: multiplication commuted... kept as is, constant named; the match spelled with if-let', R + 'call_data.rs',
-     'let value_bits: usize = <KnownWord as Into<usize>>::into(byte_size) * BYTE_SIZE_BITS;\n        state.infer_for(value, TE::bytes(Some(value_bits)));',
-     'let bytes: usize = <KnownWord as Into<usize>>::into(byte_size);\n        let value_bits: usize = bytes * BYTE_SIZE_BITS;\n        let ty = TE::word(Some(value_bits), crate::tc::expression::WordUse::Bytes);\n        state.infer_for(value, ty);',
+    ('H08 call_data: size named, the word built with TE::word, early return spelled with match', R + 'call_data.rs',
+     ['tc::{expression::TE, rule::InferenceRule, state::TypeCheckerState},',
+      'let value_bits: usize = <KnownWord as Into<usize>>::into(byte_size) * BYTE_SIZE_BITS;\n        state.infer_for(value, TE::bytes(Some(value_bits)));'],
+     ['tc::{expression::{WordUse, TE}, rule::InferenceRule, state::TypeCheckerState},',
+      'let bytes: usize = <KnownWord as Into<usize>>::into(byte_size);\n        let value_bits: usize = bytes * BYTE_SIZE_BITS;\n        let ty = TE::word(Some(value_bits), WordUse::Bytes);\n        state.infer_for(value, ty);'],
      None),
     ('H09 InferenceRules::infer: explicit match instead of `?`', R + 'mod.rs',
      'rule.infer(value, state)?;', 'match rule.infer(value, state) {\n                Ok(()) => {}\n                Err(e) => return Err(e),\n            }',
+     None),
+    ('H11 dynamic_array_write: nested let-else chain -> one nested pattern; judgements in another order', R + 'dynamic_array_write.rs',
+     ['state.infer(b_tv, TE::eq(g_tv));\n\n        // `f = unsigned`\n        state.infer_for(f, TE::unsigned_word(None));\n\n        // `d = dynamic_array<b>`\n        state.infer_for(d, TE::dyn_array(b_tv));'],
+     ['state.infer_for(d, TE::dyn_array(b_tv));\n        state.infer_for_many([f], TE::unsigned_word(None));\n        state.infer(g_tv, TE::eq(b_tv));'],
+     None),
+    ('H12 boolean: Equals arm judgements one by one, bool first', R + 'boolean_operations.rs',
+     'TCSVD::Equals { left, right } => {\n                state.infer_for_many([left, right], TE::bytes(None));\n                state.infer_for(value, TE::bool());',
+     'TCSVD::Equals { left: l, right: r } => {\n                state.infer_for(value, TE::bool());\n                state.infer_for(r, TE::bytes(None));\n                state.infer_for(l, TE::bytes(None));\n                state.infer_for(value, TE::bool());',
      None),
     ('H10 environment: the address group split in two arms, comments', R + 'environment_opcodes.rs',
      'TCSVD::Address | TCSVD::Origin | TCSVD::Caller | TCSVD::CoinBase => {\n                state.infer_for(value, TE::address());\n            }',
@@ -175,8 +189,11 @@ def run(name, path, old, new, want):
     subprocess.run(['git', '-C', WT, 'checkout', '--', '.'], check=True)
     p = f'{WT}/{path}'
     s = open(p).read()
-    assert s.count(old) == 1, (name, s.count(old))
-    open(p, 'w').write(s.replace(old, new))
+    pairs = list(zip(old, new)) if isinstance(old, list) else [(old, new)]
+    for o, n in pairs:
+        assert s.count(o) == 1, (name, o, s.count(o))
+        s = s.replace(o, n)
+    open(p, 'w').write(s)
     t0 = time.time()
     r = subprocess.run(['python3', '/verif/vx/vx.py', 'unit', 'rules', '--raw'], capture_output=True, text=True,
                        env={**__import__('os').environ, 'VX_REPO': WT}, cwd='/verif')
